@@ -418,7 +418,44 @@ func TestVerifC09Rot(t *testing.T) {
 			okB++
 		}
 	}
-	rt.Out(rt.M{"kind": "summary", "behaviours": len(in.Behaviours), "matched": okB, "steps": steps})
+	// a clock that moves between two readings while a file is opened: midnight UTC passes inside one
+	// rotation.  Either day may count as the current one, but the file's name must carry the begin date
+	// the file records, and the process must rotate at the end it records.
+	ticking := 0
+	for k := 0; k < 40; k++ {
+		dir := t.TempDir()
+		telemetry.Default = telemetry.NewDir(dir)
+		setWeekends(t, []byte(fmt.Sprintf("%d\n", k%7)), false)
+		t1 := at(int64(19000+k*37), 0).Add(-time.Duration(1+k%3) * time.Millisecond)
+		step := time.Duration(2+k%4) * time.Millisecond
+		calls := 0
+		counter.CounterTime = func() time.Time {
+			calls++
+			return t1.Add(time.Duration(calls-1) * step)
+		}
+		var f counter.VFile
+		f.New("c09")
+		expiry := f.Rotate1()
+		if name := f.CurrentName(); name != "" && f.Err() == nil {
+			if data, err := os.ReadFile(name); err == nil {
+				meta := rt.DecodeV1(data).Meta
+				if b, err := time.Parse(time.RFC3339, meta["TimeBegin"]); err == nil {
+					ticking++
+					if want := "-" + b.UTC().Format("2006-01-02") + ".v1.count"; !strings.HasSuffix(name, want) {
+						rt.Out(rt.M{"kind": "mismatch", "what": "the file's name does not carry the begin date it records (the clock passed midnight during the open)", "id": -1 - k,
+							"step": 0, "op": "rotate", "recorded_begin": meta["TimeBegin"], "file": filepath.Base(name)})
+					}
+				}
+				if rec, err := time.Parse(time.RFC3339, meta["TimeEnd"]); err == nil && !rec.Equal(expiry) {
+					rt.Out(rt.M{"kind": "mismatch", "what": "the process will rotate at another instant than the end recorded in the file it writes to", "id": -1 - k,
+						"step": 0, "op": "rotate", "rotates_at": expiry.Format(time.RFC3339), "recorded_end": rec.Format(time.RFC3339), "file": filepath.Base(name)})
+				}
+			}
+		}
+		f.Close()
+	}
+	counter.CounterTime = func() time.Time { return now }
+	rt.Out(rt.M{"kind": "summary", "behaviours": len(in.Behaviours), "matched": okB, "steps": steps, "ticking": ticking})
 }
 
 // defaultCounterTime is the library's own clock, captured before any test replaces it.
